@@ -18,6 +18,9 @@ INVALID = '''    __CPROVER_assert(g_called == 0, "postcondition: no C++ operatio
 '''
 
 
+FOREIGN_PARSE = {'function': ['__CPROVER_assigns(g_called)', '__CPROVER_ensures(g_called == 1000)', '__CPROVER_ensures(AGG_SHAPE(&__CPROVER_return_value.v))']}
+
+
 def method_spec(mid, kind, const):
     lines = ['__CPROVER_requires(AGG_SHAPE(self))']
     targets = ['g_called', 'g_arg', 'g_ret_sv', 'g_ret_bool'] + ([] if const else ['__CPROVER_object_whole(self)'])
@@ -60,7 +63,10 @@ def add(wrapper, method, kind, mid):
          '  if (!old.has) {\n' + INVALID + bad + '  } else {\n' +
          '    __CPROVER_assert(g_called == %d, "postcondition: exactly the corresponding C++ operation was invoked");\n' % mid + good +
          '  }\n  CANARY_POINT;\n}\n')
-    OBLS.append(Obl('C17.%s.faithful' % wrapper, ['C17', 'C02'], 'P#', h, roots=[wrapper], replace=[method], specs={method: method_spec(mid, kind, const)},
+    # a wrapper that re-parses instead of calling its method is a violation (not an extraction break): ada::parse is abstract
+    # here and, when called, records an operation id that no wrapper expects
+    OBLS.append(Obl('C17.%s.faithful' % wrapper, ['C17', 'C02'], 'P#', h, roots=[wrapper], replace=[method], stub=['parse_agg'],
+                    specs={method: method_spec(mid, kind, const), 'parse_agg': FOREIGN_PARSE},
                     bufn=8, defines=['STR_CAP=4', 'BUF_START=1'], includes=INC, globals=[('omitted', 'const unsigned int')], unwind=6, timeout=300,
                     note='invalid handle => null/empty/false, nothing called, handle untouched; valid handle => exactly %s is called with the arguments passed through and its result returned unchanged' % method))
 
@@ -121,3 +127,61 @@ OBLS.append(Obl('C17.lifecycle.copy_free_owned', ['C17', 'C02'], 'P#', LIFE, roo
                 replace=['agg_get_origin'], specs={'agg_get_origin': ORIGIN_SPEC}, defines=['STR_CAP=4'], includes=INC + ['model/c17_origin.h'],
                 globals=[('omitted', 'const unsigned int')], unwind=8, timeout=300, extra_flags=['--memory-leak-check'],
                 note='copy is equal and independent; owned string = bytes of the C++ string; every allocation freed exactly once (memory-leak check on)'))
+
+# ---- parse / can_parse entry points: the wrappers hand exactly their arguments to ada::parse / ada::can_parse (abstract, recording)
+CP_SPEC = {'function': ['__CPROVER_assigns(g_called, g_arg, g_arg2, g_has_base, g_ret_bool)',
+                        '__CPROVER_ensures(g_called == __CPROVER_old(g_called) + 1)',
+                        '__CPROVER_ensures(g_arg.p == input.p && g_arg.n == input.n)',
+                        '__CPROVER_ensures(g_has_base == (base_input != (const sv_t *)0))',
+                        '__CPROVER_ensures(base_input == (const sv_t *)0 || (g_arg2.p == base_input->p && g_arg2.n == base_input->n))',
+                        '__CPROVER_ensures(__CPROVER_return_value == g_ret_bool)']}
+CANP = '''/* C17.ada_can_parse / ada_can_parse_with_base: exactly one call of ada::can_parse with the views passed through, result returned */
+void harness(void) {
+  const char *input = g_buf; NONDET(size_t, length); const char *base = g_buf2; NONDET(size_t, base_length);
+  g_called = 0;
+  _Bool x = ada_can_parse(input, length);
+  __CPROVER_assert(g_called == 1 && x == g_ret_bool, "postcondition: ada_can_parse returns what the single call of ada::can_parse returned");
+  __CPROVER_assert(g_arg.p == input && g_arg.n == length && !g_has_base, "postcondition: (data,length) passed through, no base");
+  g_called = 0;
+  _Bool y = ada_can_parse_with_base(input, length, base, base_length);
+  __CPROVER_assert(g_called == 1 && y == g_ret_bool, "postcondition: ada_can_parse_with_base returns what the single call of ada::can_parse(input, &base) returned");
+  __CPROVER_assert(g_arg.p == input && g_arg.n == length && g_has_base && g_arg2.p == base && g_arg2.n == base_length, "postcondition: input and base views passed through");
+  CANARY_POINT;
+}
+'''
+OBLS.append(Obl('C17.ada_can_parse.faithful', ['C17', 'C08', 'C02'], 'P#', CANP, roots=['ada_can_parse', 'ada_can_parse_with_base'], stub=['can_parse'], specs={'can_parse': CP_SPEC},
+                bufn=8, defines=['STR_CAP=4', 'BUF_START=1'], includes=INC + ['model/c17_parse_ghost.h'], unwind=6, timeout=300,
+                note='ada_can_parse / ada_can_parse_with_base == ada::can_parse on the same views (always with the base when one is given)'))
+
+P_SPEC = {'function': ['__CPROVER_assigns(g_called, g_arg, g_arg2, g_has_base, g_base_seen, g_res1, g_res2)',
+                       '__CPROVER_ensures(g_called == __CPROVER_old(g_called) + 1)',
+                       '__CPROVER_ensures(g_called != 1 || (g_arg.p == input.p && g_arg.n == input.n && g_has_base == (base_url != (const struct url_aggregator *)0) && agg_eqv(__CPROVER_return_value.v, g_res1.v) && __CPROVER_return_value.has == g_res1.has))',
+                       '__CPROVER_ensures(g_called != 2 || (g_arg2.p == input.p && g_arg2.n == input.n && base_url != (const struct url_aggregator *)0 && agg_eqv(*base_url, g_base_seen) && agg_eqv(__CPROVER_return_value.v, g_res2.v) && __CPROVER_return_value.has == g_res2.has))',
+                       '__CPROVER_ensures(g_called != 2 || (g_arg.p == __CPROVER_old(g_arg.p) && g_arg.n == __CPROVER_old(g_arg.n) && g_res1.has == __CPROVER_old(g_res1.has) && agg_eqv(g_res1.v, __CPROVER_old(g_res1.v))))',
+                       '__CPROVER_ensures(AGG_SHAPE(&__CPROVER_return_value.v))']}
+PARSE = '''/* C17.ada_parse / ada_parse_with_base: the handle holds exactly the result of ada::parse (with base: of parsing the input against
+ * the parsed base; a base that fails to parse yields a failed handle and the input is never parsed) */
+void harness(void) {
+  const char *input = g_buf; NONDET(size_t, length); const char *base = g_buf2; NONDET(size_t, base_length);
+  g_called = 0;
+  result_url_aggregator_t *h = (result_url_aggregator_t *)ada_parse(input, length);
+  __CPROVER_assert(g_called == 1 && g_arg.p == input && g_arg.n == length && !g_has_base, "postcondition: ada_parse = one call of ada::parse(input) without base");
+  __CPROVER_assert(h->has == g_res1.has && agg_eqv(h->v, g_res1.v), "postcondition: the handle holds exactly the parse result");
+  ada_free(h);
+  g_called = 0;
+  result_url_aggregator_t *w = (result_url_aggregator_t *)ada_parse_with_base(input, length, base, base_length);
+  __CPROVER_assert(g_arg.p == base && g_arg.n == base_length, "postcondition: the base string is parsed first (without base)");
+  if (!g_res1.has) {
+    __CPROVER_assert(g_called == 1 && !w->has, "postcondition: a base that fails to parse gives a failed handle; the input is not parsed");
+  } else {
+    __CPROVER_assert(g_called == 2 && g_arg2.p == input && g_arg2.n == length && agg_eqv(g_base_seen, g_res1.v), "postcondition: the input is parsed against the parsed base");
+    __CPROVER_assert(w->has == g_res2.has && agg_eqv(w->v, g_res2.v), "postcondition: the handle holds exactly the result of the second parse");
+  }
+  ada_free(w);
+  CANARY_POINT;
+}
+'''
+OBLS.append(Obl('C17.ada_parse.faithful', ['C17', 'C02'], 'P#', PARSE, roots=['ada_parse', 'ada_parse_with_base', 'ada_free'], stub=['parse_agg'], specs={'parse_agg': P_SPEC},
+                bufn=8, defines=['STR_CAP=4', 'BUF_START=1'], includes=INC + ['model/c17_parse_ghost.h'], globals=[('omitted', 'const unsigned int')], unwind=8, timeout=600,
+                extra_flags=['--memory-leak-check'],
+                note='ada_parse / ada_parse_with_base == ada::parse; handles are heap objects released by ada_free (leak check on)'))
